@@ -159,6 +159,21 @@ func runC02(c *Ctx) {
 			c.check(ok, "C02.2", "NewGraph:provideArgSrc", L.pos(st.Pos()), "an edge reads the supplier's recorded result index (0 for arguments)", strings.Join(ts, " | "))
 		}
 	}
+	// round 16 (C02-m31): the supplier table's result index is fixed when the entry is created - it is stored into a
+	// freshly allocated fnProvider only, never into an entry read back from the table (the first result group that
+	// offers a type is the one its consumers get)
+	if ng := genFn(c, "C02.2", "NewGraph"); ng != nil {
+		nIdx := 0
+		for _, st := range storesToField(withClosures(ng), "internal/kessoku.fnProvider.returnIndex") {
+			nIdx++
+			fresh := false
+			if fa, ok := st.Addr.(*ssa.FieldAddr); ok {
+				_, fresh = fa.X.(*ssa.Alloc)
+			}
+			c.check(fresh, "C02.2", "NewGraph:supplier-index-written-at-creation-only", L.pos(st.Pos()), "the result index of a supplier-table entry is written when the entry is created, not updated on a later occurrence of the same type", fmt.Sprintf("store #%d of fnProvider.returnIndex", nIdx))
+		}
+		c.floor("C02.2", "stores of fnProvider.returnIndex in NewGraph", nIdx, 2)
+	}
 	if build := genFn(c, "C02.2", "(*Graph).Build"); build != nil {
 		// providerArgs[edge.provideArgDst] = {Param: n.returnValues[edge.provideArgSrc]}
 		ok := false
